@@ -30,38 +30,6 @@ pub struct Case {
 }
 
 // ------------------------------------------------------------------------------------------------
-// reference DBSCAN (used only to *name* an index dependence in the tie class, never to judge validity)
-
-/// The labelling the textbook algorithm produces when points are visited in index order: clusters
-/// numbered by their lowest-index core point, a border point joins the first cluster that reaches it.
-fn reference_dbscan(d: &Density) -> Vec<Option<usize>> {
-    let n = d.core.len();
-    let mut order: Vec<(usize, usize)> = vec![]; // (lowest core index, component)
-    let mut seen = vec![false; d.ncomp];
-    for i in 0..n {
-        if let Some(c) = d.comp[i] {
-            if !seen[c] {
-                seen[c] = true;
-                order.push((i, c));
-            }
-        }
-    }
-    let mut label_of_comp = vec![0usize; d.ncomp];
-    for (l, &(_, c)) in order.iter().enumerate() {
-        label_of_comp[c] = l;
-    }
-    (0..n)
-        .map(|i| {
-            if let Some(c) = d.comp[i] {
-                Some(label_of_comp[c])
-            } else {
-                d.reaching_components(i).iter().map(|&c| label_of_comp[c]).min()
-            }
-        })
-        .collect()
-}
-
-// ------------------------------------------------------------------------------------------------
 // shared preparation
 
 struct Prepared {
@@ -125,6 +93,54 @@ fn report(obs: &mut Obs, who: &str, v: &Violations) {
     }
 }
 
+/// How one index treats the pairs that lie at a distance of exactly the tolerance (tie class).
+#[derive(Debug, Clone, Copy, PartialEq, Eq)]
+enum Probed {
+    /// not probed (generic class, zero features) or the probe failed
+    Unknown,
+    Is(Conv),
+    /// some pairs at exactly the tolerance are neighbours and others are not
+    Mixed,
+    /// the index' answers differ from the definition on pairs that are not at the tolerance
+    Foreign,
+}
+
+fn probe(c: &Case, x: &ndarray::Array2<f64>, strict: &Density, incl: Option<&Density>, nn: &linfa_nn::CommonNearestNeighbour, name: &str, obs: &mut Obs) -> Probed {
+    let incl = match incl {
+        Some(i) if c.dim > 0 => i,
+        _ => return Probed::Unknown,
+    };
+    let rel = match vengine::guard(|| run::relation(x, c.tol, c.metric, nn.clone())) {
+        Ok(Ok(r)) => r,
+        _ => return Probed::Unknown,
+    };
+    if rel == strict.nb {
+        obs.class("tie_index_strict");
+        return Probed::Is(Conv::Strict);
+    }
+    if rel == incl.nb {
+        obs.class("tie_index_inclusive");
+        return Probed::Is(Conv::Inclusive);
+    }
+    let between = rel.len() == strict.nb.len()
+        && rel.iter().zip(strict.nb.iter().zip(incl.nb.iter())).all(|(r, (s, i))| s.iter().all(|k| r.contains(k)) && r.iter().all(|k| i.contains(k)));
+    if between {
+        obs.class("tie_index_mixed");
+        let witness = rel.iter().zip(strict.nb.iter().zip(incl.nb.iter())).position(|(r, (s, i))| r != s && r != i);
+        let asym = (0..rel.len()).find_map(|i| rel[i].iter().find(|&&j| !rel[j].contains(&i)).map(|&j| (i, j)));
+        obs.fail(
+            "tie:mixed-neighbourhood-convention",
+            format!(
+                "{name}: with the tolerance equal to an inter-point distance the index treats some pairs at exactly that distance as neighbours and others not (first sample with a partial answer: {:?}; asymmetric pair (i sees j, j does not see i): {:?})",
+                witness, asym
+            ),
+        );
+        Probed::Mixed
+    } else {
+        Probed::Foreign
+    }
+}
+
 // ------------------------------------------------------------------------------------------------
 // DBSCAN
 
@@ -156,16 +172,19 @@ fn check_dbscan(c: &Case, obs: &mut Obs) {
     obs.nontrivial_if(border_multi || (strict.ncomp >= 2 && noise));
 
     let mut results: Vec<Option<Vec<Option<usize>>>> = vec![];
+    let mut probed: Vec<Probed> = vec![];
     for (nn, name) in run::INDICES.iter() {
         let r = obs.call("dbscan", || run::dbscan(&x, c.min_points, c.tol, c.metric, nn.clone(), false));
         let labels = match r {
             None => {
                 results.push(None);
+                probed.push(Probed::Unknown);
                 continue;
             }
             Some(Err(e)) => {
                 obs.fail("dbscan:spurious-error", format!("{name}: valid hyper-parameters rejected: {e}"));
                 results.push(None);
+                probed.push(Probed::Unknown);
                 continue;
             }
             Some(Ok(l)) => l,
@@ -181,20 +200,30 @@ fn check_dbscan(c: &Case, obs: &mut Obs) {
                 }
             }
             results.push(Some(labels));
+            probed.push(Probed::Unknown);
             continue;
         }
-        let mut v = dbscan_violations(&strict, &labels);
-        if !v.is_empty() {
-            if let Some(inc) = &incl {
-                let vi = dbscan_violations(inc, &labels);
-                if vi.is_empty() {
-                    obs.class("tie_run_inclusive");
-                    v = vi;
+        let pr = probe(c, &x, &strict, incl.as_ref(), nn, name, obs);
+        probed.push(pr);
+        let v = match (pr, &incl) {
+            (Probed::Mixed, _) => vec![], // reported by the probe; the run is not judged further
+            (Probed::Is(Conv::Inclusive), Some(inc)) => {
+                obs.class("tie_run_inclusive");
+                dbscan_violations(inc, &labels)
+            }
+            (Probed::Is(Conv::Strict), _) => {
+                obs.class("tie_run_strict");
+                dbscan_violations(&strict, &labels)
+            }
+            _ => {
+                // generic class, or a probe that tells nothing: '<', and in the tie class '<=' as the alternative
+                let v = dbscan_violations(&strict, &labels);
+                match &incl {
+                    Some(inc) if !v.is_empty() && dbscan_violations(inc, &labels).is_empty() => vec![],
+                    _ => v,
                 }
             }
-        } else if g.tie {
-            obs.class("tie_run_strict");
-        }
+        };
         report(obs, name, &v);
         results.push(Some(labels));
     }
@@ -208,20 +237,13 @@ fn check_dbscan(c: &Case, obs: &mut Obs) {
                     continue;
                 }
                 let msg = format!("{} gives {:?}, {} gives {:?}", names[a], la, names[b], lb);
-                let conventions_differ = match &incl {
-                    Some(inc) if c.dim > 0 => {
-                        let rs = reference_dbscan(&strict);
-                        let ri = reference_dbscan(inc);
-                        rs != ri && ((*la == rs && *lb == ri) || (*la == ri && *lb == rs))
-                    }
-                    _ => false,
-                };
-                if conventions_differ {
+                match (probed.get(a), probed.get(b)) {
+                    // a run on an index with a mixed convention was reported by the probe and is not compared
+                    (Some(Probed::Mixed), _) | (_, Some(Probed::Mixed)) => {}
                     // one index treats a point at distance exactly = tolerance as a neighbour, the other
-                    // does not; each labelling is the DBSCAN clustering under its own convention
-                    obs.fail("dbscan:index-dependence:tie-convention", msg);
-                } else {
-                    obs.fail("dbscan:index-dependence", msg);
+                    // does not; each labelling was judged under its own convention above
+                    (Some(Probed::Is(ca)), Some(Probed::Is(cb))) if ca != cb => obs.fail("dbscan:index-dependence:tie-convention", msg),
+                    _ => obs.fail("dbscan:index-dependence", msg),
                 }
             }
         }
@@ -271,7 +293,8 @@ fn check_optics(c: &Case, obs: &mut Obs) {
     });
     obs.class_if(strict.ncomp >= 2, "components_2plus");
 
-    let mut runs: Vec<Option<(Vec<OSample>, bool)>> = vec![];
+    // per index: listing, "all core distances are the definitional ones", probed convention
+    let mut runs: Vec<Option<(Vec<OSample>, bool, Probed)>> = vec![];
     let mut lowered_any = false;
     for (nn, name) in run::INDICES.iter() {
         let r = obs.call("optics", || run::optics(&x, c.min_points, c.tol, c.metric, nn.clone()));
@@ -287,9 +310,10 @@ fn check_optics(c: &Case, obs: &mut Obs) {
             }
             Some(Ok(s)) => s,
         };
-        let mut verdict = optics_violations(&g, &strict, c.min_points, &samples);
-        if c.dim == 0 {
+        let mut pr = Probed::Unknown;
+        let verdict = if c.dim == 0 {
             // as for DBSCAN: all-undefined (the coded behaviour) or the definitional analysis
+            let mut verdict = optics_violations(&g, &strict, c.min_points, &samples);
             let all_undefined = samples.iter().all(|s| s.core.is_none() && s.reach.is_none());
             if all_undefined {
                 verdict.violations.retain(|(s, _)| *s == "optics:not-a-permutation");
@@ -297,61 +321,98 @@ fn check_optics(c: &Case, obs: &mut Obs) {
                 obs.fail("optics:zero-features", format!("{name}: listing {:?} is neither all-undefined nor the definitional analysis", samples));
                 verdict.violations.clear();
             }
-        } else if let Some(inc) = &incl {
-            if !verdict.violations.is_empty() {
-                let vi = optics_violations(&g, inc, c.min_points, &samples);
-                if unrecognised(&vi) < unrecognised(&verdict) || (unrecognised(&vi) == unrecognised(&verdict) && vi.violations.len() < verdict.violations.len()) {
-                    obs.class("tie_run_inclusive");
-                    verdict = vi;
+            verdict
+        } else {
+            pr = probe(c, &x, &strict, incl.as_ref(), nn, name, obs);
+            match (pr, &incl) {
+                (Probed::Mixed, _) => {
+                    // reported by the probe; only "every sample exactly once" is still judged
+                    let mut v = optics_violations(&g, &strict, c.min_points, &samples);
+                    v.violations.retain(|(s, _)| *s == "optics:not-a-permutation");
+                    v.cores_exact = false;
+                    v
                 }
-            } else {
-                obs.class("tie_run_strict");
+                (Probed::Is(Conv::Inclusive), Some(inc)) => {
+                    obs.class("tie_run_inclusive");
+                    optics_violations(&g, inc, c.min_points, &samples)
+                }
+                (Probed::Is(Conv::Strict), _) => {
+                    obs.class("tie_run_strict");
+                    optics_violations(&g, &strict, c.min_points, &samples)
+                }
+                (_, None) => optics_violations(&g, &strict, c.min_points, &samples),
+                (_, Some(inc)) => {
+                    // the probe tells nothing: whichever of '<' / '<=' explains the run better
+                    let vs = optics_violations(&g, &strict, c.min_points, &samples);
+                    let vi = optics_violations(&g, inc, c.min_points, &samples);
+                    if (unrecognised(&vi), vi.violations.len()) < (unrecognised(&vs), vs.violations.len()) {
+                        vi
+                    } else {
+                        vs
+                    }
+                }
             }
-        }
+        };
         report(obs, name, &verdict.violations);
         obs.class_if(verdict.defined_reach > 0, "some_reachability_defined");
         obs.class_if(verdict.violations.iter().any(|(s, _)| *s == RECOGNISED[0]), "hit:core-distance-neighbour-list-order");
         obs.class_if(verdict.violations.iter().any(|(s, _)| *s == RECOGNISED[1]), "hit:start-point-listed-late");
         lowered_any |= verdict.lowered > 0;
-        runs.push(Some((samples, verdict.cores_exact)));
+        runs.push(Some((samples, verdict.cores_exact, pr)));
     }
     obs.class_if(lowered_any, "reachability_lowered_after_set");
     obs.nontrivial_if(lowered_any);
 
-    // index independence: identical (index, core, reachability) sequences — generic class only
-    if !g.tie && c.dim > 0 {
+    // index independence: bit-identical (index, core, reachability) sequences. Generic class: all
+    // pairs; tie class: pairs of indices that were probed to apply the same convention.
+    if c.dim > 0 {
         let first_diff = |a: &[OSample], b: &[OSample]| -> String {
             match a.iter().zip(b.iter()).position(|(x, y)| x != y) {
                 Some(p) => format!("first difference at position {p}: {:?} vs {:?}", a.get(p), b.get(p)),
                 None => format!("lengths {} vs {}", a.len(), b.len()),
             }
         };
-        if let (Some(Some((kd, _))), Some(Some((ball, _)))) = (runs.get(1), runs.get(2)) {
-            obs.ensure(kd == ball, "optics:index-dependence:kdtree-balltree", || {
-                format!("KdTree and BallTree listings differ, {}", first_diff(kd, ball))
-            });
-        }
-        if let (Some(Some((lin, lin_exact))), Some(Some((kd, _)))) = (runs.first(), runs.get(1)) {
-            // The LinearSearch run is compared when its core distances are the definitional ones AND
-            // bit-identical to KdTree's: among neighbours whose distances differ only by rounding,
-            // LinearSearch's index-order pick (the recognised core-distance defect) can return a value
-            // one ulp away, which passes the tolerance test above but legitimately re-orders exact ties.
-            let same_cores = lin.len() == kd.len() && {
-                let mut a: Vec<(usize, Option<u64>)> = lin.iter().map(|s| (s.index, s.core.map(f64::to_bits))).collect();
-                let mut b: Vec<(usize, Option<u64>)> = kd.iter().map(|s| (s.index, s.core.map(f64::to_bits))).collect();
-                a.sort_unstable();
-                b.sort_unstable();
-                a == b
-            };
-            if *lin_exact && same_cores {
-                obs.class("linear_listing_compared");
-                obs.ensure(lin == kd, "optics:index-dependence:linear", || {
-                    format!("LinearSearch and KdTree listings differ although all core distances agree, {}", first_diff(lin, kd))
-                });
+        let comparable = |a: Probed, b: Probed| -> bool {
+            if g.tie {
+                matches!((a, b), (Probed::Is(x), Probed::Is(y)) if x == y)
             } else {
-                // a wrong core distance was already reported for the LinearSearch run; its ordering and
-                // reachabilities follow from it and are not compared a second time
-                obs.class("linear_listing_not_compared");
+                true
+            }
+        };
+        if let (Some(Some((kd, _, pk))), Some(Some((ball, _, pb)))) = (runs.get(1), runs.get(2)) {
+            if comparable(*pk, *pb) {
+                obs.class_if(g.tie, "tie_listings_compared");
+                obs.ensure(kd == ball, "optics:index-dependence:kdtree-balltree", || {
+                    format!("KdTree and BallTree listings differ, {}", first_diff(kd, ball))
+                });
+            }
+        }
+        // The LinearSearch run is compared when its core distances are the definitional ones AND
+        // bit-identical to the other run's: among neighbours whose distances differ only by rounding,
+        // LinearSearch's index-order pick (the recognised core-distance defect) can return a value one
+        // ulp away, which passes the tolerance test above but legitimately re-orders exact ties.
+        for other in [1usize, 2] {
+            if let (Some(Some((lin, lin_exact, pl))), Some(Some((tree, _, pt)))) = (runs.first(), runs.get(other)) {
+                if !comparable(*pl, *pt) {
+                    continue;
+                }
+                let same_cores = lin.len() == tree.len() && {
+                    let mut a: Vec<(usize, Option<u64>)> = lin.iter().map(|s| (s.index, s.core.map(f64::to_bits))).collect();
+                    let mut b: Vec<(usize, Option<u64>)> = tree.iter().map(|s| (s.index, s.core.map(f64::to_bits))).collect();
+                    a.sort_unstable();
+                    b.sort_unstable();
+                    a == b
+                };
+                if *lin_exact && same_cores {
+                    obs.class("linear_listing_compared");
+                    obs.ensure(lin == tree, "optics:index-dependence:linear", || {
+                        format!("LinearSearch and {} listings differ although all core distances agree, {}", run::INDICES[other].1, first_diff(lin, tree))
+                    });
+                } else {
+                    // a wrong core distance was already reported for the LinearSearch run; its ordering and
+                    // reachabilities follow from it and are not compared a second time
+                    obs.class("linear_listing_not_compared");
+                }
             }
         }
     }
@@ -581,7 +642,7 @@ fn general_case(tier: Tier, allow_tie: bool) -> impl Strategy<Value = Case> {
 /// on and between the integer distances: sweeps the visiting order exhaustively.
 fn small_1d(tier: Tier) -> Vec<Case> {
     let vals: usize = tier.pick(4, 5);
-    let len: usize = tier.pick(5, 6);
+    let len: usize = tier.pick(6, 7);
     let mut out = vec![];
     let mut seqs: Vec<Vec<usize>> = vec![vec![]];
     let mut frontier: Vec<Vec<usize>> = vec![vec![]];
@@ -640,7 +701,7 @@ pub fn property() -> Property {
         rule: "cases = (point set assembled from chains, rings, grids, small-integer clouds, gaussian blobs, far noise points and duplicates, \
                rows permuted; 0..=3 features; n 0..=40 quick / 0..=150 thorough; min_points 2..=6; metric L1/L2/Linf; tolerance placed in a gap \
                between sorted pairwise distances = class generic, or bit-equal to one = class tie). Every case is run with LinearSearch, KdTree and \
-               BallTree. Plus exhaustive enumeration of all 1-feature sequences of <= 5 (6) points on 4 (5) integer positions x min_points 2..=4 x \
+               BallTree. Plus exhaustive enumeration of all 1-feature sequences of <= 6 (7) points on 4 (5) integer positions x min_points 2..=4 x \
                5 tolerances, and a table of degenerate shapes. Non-trivial: DBSCAN = a border point reachable from two clusters, or >= 2 clusters \
                together with noise; OPTICS = some sample whose reachability is smaller than what the first listed core point within the tolerance \
                offered (it was lowered after first being set). Distinct = distinct canonical JSON of the case",
@@ -656,10 +717,14 @@ pub fn property() -> Property {
             "tolerance <= 0, min_points < 2, non-finite coordinates and non-contiguous views are documented preconditions and are not generated".into(),
         ],
         subs: vec![
-            prop_sub("optics", 6000, 120000, |t: Tier| case_strategy(t, true), check_optics),
-            prop_sub("dbscan", 6000, 120000, |t: Tier| case_strategy(t, true), check_dbscan),
-            enum_sub("optics_small_1d", small_1d, check_optics),
-            enum_sub("dbscan_small_1d", small_1d, check_dbscan),
+            prop_sub("optics", 25000, 300000, |t: Tier| case_strategy(t, true), check_optics)
+                .chunks(16)
+                .require(&["tie", "generic", "n_gt_16_tree_branches", "reachability_lowered_after_set", "dim0"]),
+            prop_sub("dbscan", 25000, 300000, |t: Tier| case_strategy(t, true), check_dbscan)
+                .chunks(16)
+                .require(&["tie", "generic", "n_gt_16_tree_branches", "border_reachable_from_two_clusters", "dim0"]),
+            enum_sub("optics_small_1d", small_1d, check_optics).chunks(16),
+            enum_sub("dbscan_small_1d", small_1d, check_dbscan).chunks(16),
             enum_sub("optics_corners", corners, check_optics).chunks(1),
             enum_sub("dbscan_corners", corners, check_dbscan).chunks(1),
         ],
